@@ -940,6 +940,94 @@ theorem mapcar_spec (f : List Obj → Obj) (lists : List (List Obj)) :
       ∀ i : Nat, (mapcar f lists)[i]? = ((tuples lists)[i]?).map f := by
   simp [mapcar]
 
+/-! ## user functions that re-enter the call (`self=key|pred|fn|test|test1` of the driver)
+
+  All theorems above quantify over arbitrary `p`, `key`, `eqv`, `lt`: they hold in particular when
+  these are the recursively defined functions below, i.e. when a `:key` / `:test` / predicate re-enters
+  the very call it is an argument of. The model is a pure function, so evaluating a call again,
+  nested or later, gives the same answer; that the implementation does too (no state kept in
+  function objects or package variables between or during calls) is what the harness checks by
+  evaluating every call form three times inside one lambda. -/
+
+theorem toList?_ofList (l : List Obj) : (Obj.ofList l).toList? = some l := by
+  induction l with
+  | nil => rfl
+  | cons a l ih => simp [Obj.ofList, Obj.toList?, ih]
+
+/-- on an atom the base function decides -/
+theorem selfApply_atom (F : (Obj → Option Obj) → List Obj → Option Obj) (base : Obj → Option Obj)
+    (n : Nat) (x : Obj) (h : atomic x = true) : selfApply F base n x = base x := by
+  cases n <;> simp [selfApply, h]
+
+/-- on a nested list the enclosing call runs again, with the same user function one level down -/
+theorem selfApply_cons (F : (Obj → Option Obj) → List Obj → Option Obj) (base : Obj → Option Obj)
+    (n : Nat) (a d : Obj) (l : List Obj) (h : (Obj.cons a d).toList? = some l) :
+    selfApply F base (n + 1) (.cons a d) = F (selfApply F base n) l := by
+  simp [selfApply, atomic, h]
+
+theorem selfApply2_atom (F : (Obj → Obj → Option Obj) → List Obj → List Obj → Option Obj)
+    (base : Obj → Obj → Option Obj) (n : Nat) (a b : Obj) (h : atomic a = true ∨ atomic b = true) :
+    selfApply2 F base n a b = base a b := by
+  cases n <;> rcases h with h | h <;> simp [selfApply2, h]
+
+theorem selfApply2_cons (F : (Obj → Obj → Option Obj) → List Obj → List Obj → Option Obj)
+    (base : Obj → Obj → Option Obj) (n : Nat) (a1 d1 a2 d2 : Obj) (la lb : List Obj)
+    (ha : (Obj.cons a1 d1).toList? = some la) (hb : (Obj.cons a2 d2).toList? = some lb) :
+    selfApply2 F base (n + 1) (.cons a1 d1) (.cons a2 d2) = F (selfApply2 F base n) la lb := by
+  simp [selfApply2, atomic, ha, hb]
+
+/-- the re-entering test of remove-duplicates is symmetric (hence usable as an equivalence test) -/
+theorem selfApplyT_symm (F : (Obj → Obj → Option Obj) → List Obj → Option Obj) (n : Nat) (a b : Obj)
+    (v : Obj) (h : selfApplyT F n a b = some v) : selfApplyT F n b a = some v := by
+  cases n with
+  | zero =>
+    simp only [selfApplyT] at *
+    by_cases hab : (atomic a || atomic b) = true
+    · have hba : (atomic b || atomic a) = true := by simpa [Bool.or_comm] using hab
+      simp only [hab, if_true] at h
+      simp only [hba, if_true]
+      rw [← h]
+      congr 1
+      by_cases e : a = b
+      · subst e; rfl
+      · have e' : ¬ b = a := fun h' => e h'.symm
+        simp [ofBool, e, e']
+    · simp [hab] at h
+  | succ n =>
+    simp only [selfApplyT] at *
+    by_cases hab : (atomic a || atomic b) = true
+    · have hba : (atomic b || atomic a) = true := by simpa [Bool.or_comm] using hab
+      simp only [hab, if_true] at h
+      simp only [hba, if_true]
+      rw [← h]
+      congr 1
+      by_cases e : a = b
+      · subst e; rfl
+      · have e' : ¬ b = a := fun h' => e h'.symm
+        simp [ofBool, e, e']
+    · have hba : ¬ (atomic b || atomic a) = true := by simpa [Bool.or_comm] using hab
+      simp only [hab, Bool.false_eq_true, if_false] at h
+      simp only [hba, Bool.false_eq_true, if_false]
+      cases ha : a.toList? with
+      | none => simp [ha] at h
+      | some la =>
+        cases hb : b.toList? with
+        | none => simp [ha, hb] at h
+        | some lb =>
+          simp only [ha, hb] at h ⊢
+          cases hra : F (selfApplyT F n) la with
+          | none => simp [hra] at h
+          | some ra =>
+            cases hrb : F (selfApplyT F n) lb with
+            | none => simp [hra, hrb] at h
+            | some rb =>
+              simp only [hra, hrb, Option.some.injEq] at h ⊢
+              rw [← h]
+              by_cases e : ra = rb
+              · subst e; rfl
+              · have e' : ¬ rb = ra := fun h' => e h'.symm
+                simp [ofBool, e, e']
+
 /-! ## concrete instances: the hypotheses of the theorems above are satisfiable and the model
     computes the language's answers on small inputs (tests, therefore `example`) -/
 
